@@ -341,6 +341,48 @@ pub fn gen(rng: &mut Rng, thorough: bool, out: &mut Sink) {
         }
         out.group(lines);
     }
+    // ---- generated sources of every foreign format: repeated conversion in this process and in fresh ones
+    let nsrc = if thorough { 400 } else { 60 };
+    let work = std::env::current_dir().unwrap();
+    for v in 0..nsrc {
+        let (fmt, bytes) = match v % 4 {
+            0 => ("tokenizers", crate::c17::hf_json(rng, v * 3)),
+            1 => ("sentencepiece", crate::c17::sp_model(rng, v)),
+            2 => ("tokenizers", crate::c17::hf_json(rng, v)),
+            _ => ("tekken", crate::c17::tekken_json(rng, v)),
+        };
+        let first = match guarded(|| Definition::from_slice(&bytes).ok()).flatten() {
+            Some(d) => d.to_vec(),
+            None => {
+                out.count("generated_sources_rejected");
+                continue;
+            }
+        };
+        let again_differs = (0..4).any(|_| guarded(|| Definition::from_slice(&bytes).ok().map(|d| d.to_vec())).flatten().as_deref() != Some(&first[..]));
+        let p = work.join(format!("c19_src_{}.bin", v));
+        std::fs::write(&p, &bytes).unwrap();
+        let own = {
+            let export = match guarded(|| Definition::from_slice(&bytes).ok().and_then(|d| Kitoken::from_definition(d).ok()).map(|t| t.to_definition().to_vec())) {
+                Some(Some(b)) => format!("{:016x}", fnv(&b)),
+                Some(None) => "ERR init".into(),
+                None => "PANIC".into(),
+            };
+            format!("{:016x} {} {}", fnv(&first), first.len(), export)
+        };
+        let nproc = if thorough { 4 } else { 2 };
+        let outs: Vec<String> = (0..nproc).map(|_| child(&exe, &["conv".into(), p.to_string_lossy().to_string()])).collect();
+        let _ = std::fs::remove_file(&p);
+        let bad = outs.iter().find(|o| **o != own);
+        let verdict = if again_differs {
+            "DIFF repeated conversion in one process gives different bytes".to_string()
+        } else if let Some(b) = bad {
+            format!("DIFF this-process=[{}] fresh-process=[{}]", own, b)
+        } else {
+            "OK".to_string()
+        };
+        out.push(format!("IMPLEQ conversion-generated {} {} :: {}", fmt, hex(&bytes[..bytes.len().min(4000)]), verdict));
+        out.count(&format!("generated_sources_{}", fmt));
+    }
     if plain.is_none() {
         out.push("IMPLEQ plain-build missing :: DIFF the build without CPU dispatch is not available (KVH_PLAIN)".into());
     }
